@@ -17,6 +17,7 @@ type Clause struct {
 	Line  int
 	File  string
 	Assumed   bool // "assumes": postcondition used by callers but not checked against the body (trusted clause, listed)
+	CheckOnly bool // "checks": a postcondition verified against the body but NOT assumed at call sites (for clauses expected to fail as known findings: a false clause must not become a hypothesis of the callers)
 	OnSuccess bool // "preserves": as a postcondition it is only required when the function returns a nil error (A1)
 }
 
@@ -70,7 +71,7 @@ type Witness struct {
 
 var clauseKW = map[string]bool{"func": true, "lib": true, "lemma": true, "props": true, "theory": true, "requires": true, "ensures": true, "preserves": true,
 	"modifies": true, "loop": true, "returns": true, "inline": true, "noinline": true, "pure": true, "maypanic": true, "trusted": true,
-	"results": true, "fresh": true, "uses": true, "end": true, "witness": true, "hint": true, "assumes": true, "writes": true, "apply": true, "after": true, "vars": true}
+	"results": true, "fresh": true, "uses": true, "end": true, "witness": true, "hint": true, "assumes": true, "checks": true, "writes": true, "apply": true, "after": true, "vars": true}
 
 var labelRe = regexp.MustCompile(`^\s*(\[[A-Za-z0-9_, ]+\])?\s*([A-Za-z_][A-Za-z0-9_]*)\s*:([^:=].*|$)`)
 var tagOnlyRe = regexp.MustCompile(`^\s*\[([A-Za-z0-9_, ]+)\]\s*(.*)$`)
@@ -263,6 +264,16 @@ func parseContractFile(path, pkgPath string) ([]*Contract, error) {
 				c.Label = fmt.Sprintf("a%d", len(cur.Ensures))
 			}
 			c.Assumed = true
+			cur.Ensures = append(cur.Ensures, c)
+		case "checks":
+			c, err := parseClause(r.text, path, r.line)
+			if err != nil {
+				return nil, err
+			}
+			if c.Label == "" {
+				c.Label = fmt.Sprintf("k%d", len(cur.Ensures))
+			}
+			c.CheckOnly = true
 			cur.Ensures = append(cur.Ensures, c)
 		case "requires", "ensures", "returns", "preserves":
 			c, err := parseClause(r.text, path, r.line)
